@@ -415,9 +415,11 @@ def run_prop(prop, tier, seed):
     rep.notes["generator_underlying_histories_checked_by_predicates_only"] = len(gen_cases)
     if prop == "C07":
         fails += transient_error_probes(rep)
+        fails += concurrent_close_probe(rep)
     if prop == "C08":
         fails += shared_iterator_oracle(rep, rng, tier)
         fails += scope_object_probes(rep)
+        fails += shared_consumption_probe(rep)
     if not proofs_ok:
         rep.violation("proof-broken", {"broken": rep.notes.get("broken_file", "?"), "log": rep.notes.get("build_log_tail", "")[-1500:]}, no_input=True)
     return rep.finish()
@@ -491,6 +493,106 @@ def transient_error_probes(rep):
             if why:
                 fails += 1
                 rep.violation("borrow:transient-error", {"closed": how, "then": via, "why": why})
+    return fails
+
+
+def concurrent_close_probe(rep):
+    """C07, directed: one task is suspended inside anext(handle) while another closes the handle. Either the close is
+    refused (RuntimeError: the generator is running; then the handle is simply not closed), or it succeeds -- and then the
+    handle is dead once the pending item has been delivered, and never advances the underlying iterator again"""
+    fails = 0
+
+    class Tick:
+        def __await__(self):
+            yield "tick"
+
+    class Slow(USend):
+        async def __anext__(self):
+            await Tick()
+            return await USend.__anext__(self)
+    for reborrow in (False, True):
+        u = Slow([Obj(j + 1, j) for j in range(6)])
+        h = a.borrow(u)
+        target = a.borrow(h) if reborrow else h
+        pending = target.__anext__()
+        got = {}
+        try:
+            assert pending.send(None) == "tick"
+            try:
+                drive(target.aclose())
+                got["closed"] = True
+            except RuntimeError:
+                got["closed"] = False
+            try:
+                pending.send(None)
+                got["pending"] = "still suspended"
+            except StopIteration as e:
+                got["pending"] = e.value.id
+            except StopAsyncIteration:
+                got["pending"] = "stop"
+            nxt = target.__anext__()
+            try:
+                nxt.send(None)
+                got["after"] = "advanced the underlying iterator"
+                nxt.close()
+            except StopAsyncIteration:
+                got["after"] = "dead"
+            except StopIteration as e:
+                got["after"] = ("item", e.value.id)
+            why = None
+            if got["closed"] and got["after"] != "dead":
+                why = "the close reported success, yet afterwards the handle %s" % (got["after"],)
+            elif u.closed:
+                why = "the underlying iterator was closed"
+        except BaseException as e:  # noqa
+            why = "failed with %r (%r)" % (e, got)
+        rep.count(("concurrent-close", reborrow), True)
+        if why:
+            fails += 1
+            rep.violation("borrow:concurrent-close", {"reborrowed": reborrow, "observed": repr(got), "why": why})
+    return fails
+
+
+def shared_consumption_probe(rep):
+    """C08, directed and exhaustive over small parameters: inside one scoped_iter block a tool that stops early leaves the
+    shared iterator exactly where its itertools namesake leaves a shared synchronous iterator (islice with every small
+    start/stop/step, compress with selectors shorter/longer than the data, takewhile, zip with a shorter partner)"""
+    import itertools as it_
+    fails = 0
+    N = 9
+
+    def both(name, asl, std):
+        nonlocal fails
+
+        async def run_a():
+            async with a.scoped_iter(list(range(N))) as h:
+                first = [x async for x in asl(h)]
+                rest = [x async for x in h]
+            return first, rest
+        try:
+            got = drive(run_a())
+        except BaseException as e:  # noqa
+            got = "raised %r" % (e,)
+        shared = iter(range(N))
+        want = (list(std(shared)), list(shared))
+        rep.count(("shared-consumption", name), True)
+        if got != want:
+            fails += 1
+            rep.violation("scoped:shared-consumption", {"tool": name, "why": "(items, what is left for the next tool): asyncstdlib %r, itertools on a shared iterator %r" % (got, want)})
+    for start in range(0, 4):
+        for stop in [None] + list(range(0, 9)):
+            for step in range(1, 5):
+                both("islice(%r, %r, %r)" % (start, stop, step), lambda h: a.islice(h, start, stop, step), lambda s_: it_.islice(s_, start, stop, step))
+    for sel in ([1, 0, 1], [0, 0], [], [1] * 12):
+        both("compress(handle, %r)" % (sel,), lambda h: a.compress(h, sel), lambda s_: it_.compress(s_, sel))
+        both("compress(%r, handle)" % (sel,), lambda h: a.compress(sel, h), lambda s_: it_.compress(sel, s_))
+    for k in (0, 3, 20):
+        both("takewhile(< %d)" % k, lambda h: a.takewhile(lambda x: x < k, h), lambda s_: it_.takewhile(lambda x: x < k, s_))
+        both("dropwhile(< %d) then 1" % k, lambda h: a.islice(a.dropwhile(lambda x: x < k, h), 1), lambda s_: it_.islice(it_.dropwhile(lambda x: x < k, s_), 1))
+        both("zip(handle, range(%d))" % k, lambda h: a.zip(h, range(k)), lambda s_: zip(s_, range(k)))
+        both("zip(range(%d), handle)" % k, lambda h: a.zip(range(k), h), lambda s_: zip(range(k), s_))
+        both("batched(2) first %d" % k, lambda h: a.islice(a.batched(h, 2), k), lambda s_: it_.islice(it_.batched(s_, 2), k))
+        both("pairwise first %d" % k, lambda h: a.islice(a.pairwise(h), k), lambda s_: it_.islice(it_.pairwise(s_), k))
     return fails
 
 
